@@ -384,22 +384,59 @@ fn is_subset_state(base: &Base, state: &Map) -> bool {
         }
         false
     } else {
+        if *state == base.truth {
+            return true;
+        }
         // one damaged byte makes the reader skip a record, the rest of a block or everything
-        // after a point: a contiguous run of batches
-        let mut prefix = base.tables_only.clone();
-        for i in 0..=n {
-            for j in i..=n {
-                let mut m = prefix.clone();
-                for b in &base.wal_batches[j..] {
-                    apply_to_map(&mut m, b);
-                }
-                if m == *state {
-                    return true;
+        // after a point: a contiguous run of batches. Values are unique, so a batch one of whose
+        // puts is visible was applied, and a batch none of whose (not overwritten) puts is visible
+        // was not; batches that only delete or are completely overwritten later are undecided.
+        let mut last_writer: BTreeMap<&Vec<u8>, usize> = BTreeMap::new();
+        for (bi, b) in base.wal_batches.iter().enumerate() {
+            for (k, _) in b {
+                last_writer.insert(k, bi);
+            }
+        }
+        #[derive(Clone, Copy, PartialEq)]
+        enum Seen {
+            Yes,
+            No,
+            Unknown,
+        }
+        let flags: Vec<Seen> = base.wal_batches.iter().enumerate().map(|(bi, b)| {
+            let mut flag = Seen::Unknown;
+            for (k, v) in b {
+                if let Some(v) = v {
+                    if state.get(k) == Some(v) {
+                        return Seen::Yes;
+                    }
+                    if last_writer.get(k) == Some(&bi) {
+                        flag = Seen::No;
+                    }
                 }
             }
-            watch::tick();
-            if i < n {
-                apply_to_map(&mut prefix, &base.wal_batches[i]);
+            flag
+        }).collect();
+        if let (Some(first_no), Some(last_no)) = (flags.iter().position(|f| *f == Seen::No), flags.iter().rposition(|f| *f == Seen::No)) {
+            let mut lo = first_no;
+            while lo > 0 && flags[lo - 1] == Seen::Unknown {
+                lo -= 1;
+            }
+            let mut hi = last_no + 1;
+            while hi < n && flags[hi] == Seen::Unknown {
+                hi += 1;
+            }
+            for i in lo..=first_no {
+                for j in (last_no + 1)..=hi {
+                    let mut m = base.tables_only.clone();
+                    for b in base.wal_batches[..i].iter().chain(base.wal_batches[j..].iter()) {
+                        apply_to_map(&mut m, b);
+                    }
+                    if m == *state {
+                        return true;
+                    }
+                    watch::tick();
+                }
             }
         }
         // any other subset cannot be enumerated. Necessary conditions: a batch is applied as a
@@ -672,7 +709,7 @@ pub fn run_case(tier: &str, seed: u64, idx: u64) -> CaseOut {
         let header_or_sampled = |o: usize| -> (bool, bool) {
             let st = structure_at(&base, path, o);
             let header = st.starts_with("log-header");
-            (header, header || o % 61 == 0 || (o >= 1 && structure_at(&base, path, o - 1).starts_with("log-header")))
+            (header, header || o % 241 == 0 || (o >= 1 && structure_at(&base, path, o - 1).starts_with("log-header")))
         };
         for (n, offset) in (0..len).filter(|o| !wal_family || header_or_sampled(*o).1).enumerate().filter(|(n, o)| if wal_family { (*n as u64) % SLICES == slice } else { (*o as u64) % SLICES == slice }).map(|(n, o)| (n, o)) {
             let _ = n;
